@@ -33,6 +33,27 @@ def run(rng, check, rounds=40):
             pass
         check('Argument-default-dtype-is-float-and-spaces-empty', function.Argument('x', s).dtype == float and not function.Argument('x', s).spaces and dict(function.Argument('x', s).arguments) == {'x': (s, float)})
         check('tuple-concatenation-length', len(s + t) == len(s) + len(t))
+        # ---- shapes of known rank (c13_ext.TArr)
+        r = int(rng.randint(1, 4))
+        sh = tuple(int(x) for x in rng.randint(1, 4, size=r))
+        X = function.Argument('X', sh, float)
+        perm = tuple(int(i) for i in rng.permutation(r))
+        check('transpose-permutes-the-shape', X.transpose(perm).shape == tuple(sh[i] for i in perm) and dict(X.transpose(perm).arguments) == dict(X.arguments), sh, perm)
+        ext = tuple(int(x) for x in rng.randint(1, 4, size=rng.randint(0, 3)))
+        check('_append_axes-appends', function._append_axes(X, ext).shape == sh + ext and dict(function._append_axes(X, ext).arguments) == dict(X.arguments), sh, ext)
+        ax = int(rng.randint(0, r))
+        check('sum-removes-the-axis', numpy.sum(X, ax).shape == sh[:ax] + sh[ax + 1:], sh, ax)
+        sh2 = tuple(int(x) for x in rng.randint(1, 3, size=rng.randint(0, 4)))
+        Y = function.Argument('Y', sh2, float)
+        try:
+            want = numpy.broadcast_shapes(sh, sh2)
+        except ValueError:
+            want = None
+        try:
+            got = (X * Y).shape
+        except ValueError:
+            got = None
+        check('multiply-broadcasts-like-numpy-or-raises-ValueError', got == want, sh, sh2)
         # ---- numpy.asarray keeps the shape of what it is given (c13_runtime)
         v = numpy.asarray(rng.rand(*s)) if rng.randint(0, 2) else numpy.asarray(rng.rand(*s)).tolist()
         check('asarray-keeps-shape', numpy.asarray(v, dtype='float64').shape == numpy.shape(v) == s, s)
